@@ -588,6 +588,75 @@ func genCodecEncT(g *Gen, w *bufio.Writer, t *fTables) {
 			fmt.Fprintf(w, "dec %s %s\n", m.Name, hexs(wire))
 		}
 	}
+	// "remaining octets" wrap-arounds: a decoder that compares an element's length with the number of octets left must do so in
+	// full width. For every lengthed optional element i: a well-formed message in which the octets that follow i's length field
+	// number exactly 256, 256 + L_i - 1 or 512 (one later element stretched to fit), so that a count narrowed to 8 bits is
+	// smaller than L_i although everything is present.
+	wraps := func(fam string, d *fDispatch, c fCase, m *fMsg) {
+		for i := range m.DecOpt {
+			si := &m.DecOpt[i]
+			if si.Half || si.LenSize == 0 {
+				continue
+			}
+			loI, hiI := si.bounds()
+			lens := []int{loI}
+			if si.Guard.Kind == "oneOf" {
+				lens = si.Guard.L
+			} else if hiI > loI {
+				lens = append(lens, min(hiI, loI+7))
+			}
+			for _, li := range lens {
+				for _, extra := range []int{256, 256 + li - 1, 512} {
+					if li == 0 {
+						continue
+					}
+					man := mandatory(g, m, c.Const, d.TypeIndex, epdOf(fam))
+					opt := make([]*ieVal, len(m.DecOpt))
+					vi := si.value(g, li, true)
+					opt[i] = &vi
+					rest := li
+					for j := i + 1; j < len(m.DecOpt); j++ {
+						sj := &m.DecOpt[j]
+						lj := 0
+						if sj.LenSize > 0 {
+							lo, hi := sj.bounds()
+							if sj.Guard.Kind == "oneOf" {
+								lj = sj.Guard.L[0]
+							} else {
+								lj = lo + g.Intn(min(hi-lo, 4)+1)
+							}
+						}
+						v := sj.value(g, lj, true)
+						opt[j] = &v
+						rest += len(sj.render(v, true))
+					}
+					if rest > extra {
+						continue
+					}
+					done := rest == extra
+					for j := len(m.DecOpt) - 1; j > i && !done; j-- {
+						sj := &m.DecOpt[j]
+						if sj.Half || sj.LenSize == 0 || sj.Guard.Kind == "oneOf" || sj.Store != "buf" || !sj.Alloc {
+							continue
+						}
+						_, hi := sj.bounds()
+						if opt[j].ln+extra-rest <= hi {
+							v := sj.value(g, opt[j].ln+extra-rest, true)
+							opt[j] = &v
+							done = true
+						}
+					}
+					if !done {
+						continue
+					}
+					wire := renderMsg(m, man, opt)
+					fmt.Fprintf(w, "enc %s hdr=%s %s %s\n", fam, hexs(wire[:d.HeaderLen]), m.Name, fieldsStr(man, opt))
+					fmt.Fprintf(w, "canon %s\n", hexs(wire))
+					fmt.Fprintf(w, "dec plain %s\n", hexs(wire))
+				}
+			}
+		}
+	}
 	for _, d := range t.Dispatch {
 		d := d
 		for _, c := range d.Decode {
@@ -596,6 +665,7 @@ func genCodecEncT(g *Gen, w *bufio.Writer, t *fTables) {
 				continue
 			}
 			k := len(m.DecOpt)
+			wraps(d.Family, &d, c, m)
 			one(d.Family, &d, c, m, func(int) bool { return false })
 			one(d.Family, &d, c, m, func(int) bool { return true })
 			for j := 0; j < k; j++ {
